@@ -81,8 +81,33 @@ def check_exprs(dd, exprs, acc, case, workdir, renderers=RENDERERS):
                 f'rendering={out[:300]!r}', case)
 
 
+def check_deep(dd, acc, workdir):
+    """Nesting far beyond Python's recursion limit (comparison by flat token
+    sequences only: they determine the structure)."""
+    for depth in (300, 1500, 4000):
+        for inner in ('x', '"a b"', '() ()'):
+            text = '(assert ' + '(f ' * depth + inner + ')' * depth + ')\n(check-sat)\n'
+            case = dict(text=f'<depth {depth} chain around {inner}>', depth=depth, inner=inner, kind='deep')
+            exprs = list(dd.nodeio.parse_smtlib(text))
+            flat = refreader.tokens(text)
+            for r in RENDERERS:
+                try:
+                    out = render(dd, r, exprs, workdir)
+                    back = refreader.flatten_top(model.to_plain(list(dd.nodeio.parse_smtlib(out))))
+                except Exception as e:  # noqa
+                    acc.violation(f'{r}/raises/{type(e).__name__}', f'renderer {r} on a term nested {depth} deep: {e!r}', case)
+                    continue
+                if refreader.tokens(out) != flat:
+                    acc.violation(f'{r}/tokens-differ/deep', f'depth {depth}', case)
+                elif back != flat:
+                    acc.violation(f'{r}/reparse-differs/deep', f'depth {depth}', case)
+            acc.case(case, nontrivial=True, classes=['deep-nesting'])
+
+
 def shard(ctx, acc):
     dd = env.load()
+    if ctx.shard == 0:
+        check_deep(dd, acc, ctx.workdir)
     total = 5000 if ctx.quick else 400000
     strat = gen_lex.top(max_items=5, max_leaves=30)
 
@@ -106,5 +131,8 @@ def shard(ctx, acc):
 
 def replay(case, acc, ctx):
     dd = env.load()
+    if case.get('kind') == 'deep':
+        check_deep(dd, acc, ctx.workdir)
+        return
     exprs = list(dd.nodeio.parse_smtlib(case['text']))
     check_exprs(dd, exprs, acc, case, ctx.workdir)
